@@ -308,3 +308,5 @@ def run(chk):
     from . import guardrules as _gr
     nd2_ = _gr.check_decisions(chk, c, 'C04-D', lambda fq_: fq_.startswith(('validation.',)))
     chk.floor('functions compared with the decision reference (C04-D)', nd2_, 1)
+    from . import memo as _memo
+    _memo.wire(chk, c, 'C04-M', lambda fi: fi.module.name == 'validation', 'the validator')
